@@ -40,8 +40,27 @@ using namespace std;
 // considered more important to be compatible with what the normal
 // operator>> does on "double"s etc.
 
+static istream &
+__gmp_extract_body (istream &i, mpf_ptr f);
+
 istream &
 operator>> (istream &i, mpf_ptr f)
+{
+  /* Parse with the exception mask off: the characters are fetched with
+     get(), which sets failbit together with eofbit when a valid number is the
+     last thing in the stream; with exceptions (failbit) that threw before the
+     value was assigned.  Restoring the mask throws if the final state calls
+     for it, as a failed extraction should.  */
+  ios::iostate ex = i.exceptions ();
+  i.exceptions (ios::goodbit);
+  try { __gmp_extract_body (i, f); }
+  catch (...) { i.exceptions (ex); throw; }
+  i.exceptions (ex);
+  return i;
+}
+
+static istream &
+__gmp_extract_body (istream &i, mpf_ptr f)
 {
   int base;
   char c = 0;
